@@ -65,7 +65,11 @@ type item struct {
 	T    int      `json:"t,omitempty"`
 	Gen  string   `json:"gen"`
 	Case int      `json:"case"`
+	Var  string   `json:"var,omitempty"` // layout variant: the one field changed on the populated object, and its value
 	Tags []tagpos `json:"tags,omitempty"`
+	// Framed: the length of the object is carried outside the encoding (the reader is told how much to take by
+	// the frame around it), so the writer's output alone is not a self-delimiting encoding
+	Framed bool `json:"framed,omitempty"`
 	// NoHostile: the allocation of this decoder is by design not bounded by the input (reads from a connection)
 	NoHostile bool `json:"nohostile,omitempty"`
 }
@@ -479,6 +483,9 @@ func generate(c *core.Ctx) []item {
 			return
 		}
 		it.Gen, it.Case, it.Hex = g, cas, hex.EncodeToString(b)
+		if it.Kind == "udp" && uint8(it.T) == udp.RELAY_PACK {
+			it.Framed = true // UdpRelayPack.Read takes Len bytes, Len being set from the datagram header by the receiver
+		}
 		items = append(items, it)
 	}
 	// the confirmed nested-tag patterns of one type: from nConfirm instances of their own
@@ -495,6 +502,88 @@ func generate(c *core.Ctx) []item {
 		return confirmed(ins)
 	}
 	per := c.Pick(2, 12)
+	// Layout variants.  The random fill above draws every field from one wide distribution, so the few values
+	// of a version byte, flag byte or optional group that select ANOTHER layout of the same type are hardly ever
+	// hit.  variants() takes one populated object, changes ONE field at a time to each of its candidate values
+	// (gen.Mutate: all 256 values of a byte-wide field, both of a bool, 0/1/2/3/-1 of a wider integer,
+	// empty/non-empty of strings, slices, maps, nested values) and keeps one encoding per distinct layout
+	// signature the writer produces (the length of its output; at equal length, more than the one byte changed).
+	// Every kept encoding is an item like any other: full decode, every prefix, hostile overwrites, tags.
+	maxVar := c.Pick(10, 40)
+	layoutSig := func(b, b0 []byte) string {
+		if len(b) != len(b0) {
+			return fmt.Sprint(len(b))
+		}
+		d := 0
+		for i := range b {
+			if b[i] != b0[i] {
+				d++
+			}
+		}
+		if d <= 1 {
+			return ""
+		}
+		return fmt.Sprint(len(b), "/d")
+	}
+	variants := func(g string, base int, r *rand.Rand, obj interface{}, enc func() []byte, mk func(b []byte) item) {
+		b0 := enc()
+		if b0 == nil {
+			return
+		}
+		seen := map[string]bool{}
+		k := 0
+		abs := func(x int) int {
+			if x < 0 {
+				return -x
+			}
+			return x
+		}
+		curPath, l1 := "", 0 // the integer field being varied and the length of the encoding with 1 in it
+		core.Guard(func() {
+			gen.Mutate(r, obj, func(path, kind, val string, n int) bool {
+				b := enc()
+				if kind == "int" && path != curPath {
+					curPath, l1 = path, len(b0)
+					if val == "1" && b != nil {
+						l1 = len(b)
+					}
+				}
+				if b == nil || len(b) > 6000 {
+					return true
+				}
+				// a change of the written WIDTH of the one field is not another layout: a number written as a
+				// decimal takes 1 byte for 0 and 2 for 1, 2, 3, -1 (fixed widths take the same for all), a text or
+				// blob its length plus a 1- or 3-byte header
+				switch kind {
+				case "int":
+					if val == "1" {
+						if abs(len(b)-len(b0)) <= 8 {
+							return true
+						}
+					} else if len(b) == l1 || len(b) == l1-1 {
+						return true
+					}
+				case "text":
+					if d := len(b0) - len(b); val == "empty" && (d == n || d == n+2) || val == "set" && d == -1 {
+						return true
+					}
+				}
+				sg := layoutSig(b, b0)
+				if sg == "" || seen[sg] {
+					return true
+				}
+				seen[sg] = true
+				k++
+				if c.Want(g, base+k) {
+					it := mk(b)
+					it.Var = path + "=" + val
+					add(g, base+k, it, b)
+				}
+				return k < maxVar
+			})
+		})
+	}
+	nBase := c.Pick(1, 3) // populated objects per type whose variants are explored
 	// values: every type code x per instances
 	cas := 0
 	for _, t := range gen.ValueTypes {
@@ -536,6 +625,23 @@ func generate(c *core.Ctx) []item {
 			cas++
 		}
 	}
+	for ti, t := range gen.StepTypes {
+		for bi := 0; bi < nBase; bi++ {
+			base := ti*1000 + bi*100
+			if !c.WantGen("stepv") {
+				continue
+			}
+			r := c.Rng("stepv", base)
+			t := t
+			core.Guard(func() {
+				st := gen.Step(r, t)
+				variants("stepv", base, r, st, func() []byte { return gen.Encode(func(o *gio.DataOutputX) { step.WriteStep(o, st) }) },
+					func(b []byte) item {
+						return item{Kind: "step", Sub: fmt.Sprint(t), Tags: []tagpos{{Pos: 0, W: 1, Kind: "step"}}}
+					})
+			})
+		}
+	}
 	// (streams of several steps are not a unit of this property: a stream cut at a step
 	// boundary is a valid shorter stream; C08 covers streams)
 	{
@@ -552,6 +658,30 @@ func generate(c *core.Ctx) []item {
 				t, b := mk(c.Rng("txrecord", cas))
 				add("txrecord", cas, item{Kind: "txrecord", Tags: nestedTags(t, b, conf)}, b)
 			}
+		}
+	}
+	for bi := 0; bi < nBase && c.WantGen("txrecordv"); bi++ {
+		base := bi * 100
+		r := c.Rng("txrecordv", base)
+		core.Guard(func() {
+			t := gen.TxRecord(r)
+			variants("txrecordv", base, r, t, func() []byte { return gen.Encode(func(o *gio.DataOutputX) { t.Write(o) }) },
+				func(b []byte) item { return item{Kind: "txrecord"} })
+		})
+	}
+	for ti, st := range []byte{service.SERVICE_WAS, service.SERVICE_APP, service.SERVICE_WAS_2} {
+		for bi := 0; bi < nBase && c.WantGen("servicev"); bi++ {
+			base := ti*1000 + bi*100
+			r := c.Rng("servicev", base)
+			st := st
+			core.Guard(func() {
+				sv := service.CreateService(st)
+				gen.Fill(r, sv, 1)
+				variants("servicev", base, r, sv, func() []byte { return gen.Encode(func(o *gio.DataOutputX) { service.ToBytes(sv, o) }) },
+					func(b []byte) item {
+						return item{Kind: "service", Sub: fmt.Sprint(st), Tags: []tagpos{{Pos: 0, W: 1, Kind: "service"}}}
+					})
+			})
 		}
 	}
 	cas = 0
@@ -609,6 +739,23 @@ func generate(c *core.Ctx) []item {
 				}
 				cas++
 			}
+		}
+	}
+	for ti, t := range gen.PackTypes {
+		for bi := 0; bi < nBase && c.WantGen("packv"); bi++ {
+			base := ti*1000 + bi*100
+			r := c.Rng("packv", base)
+			t := t
+			core.Guard(func() {
+				p := gen.PackDeep(r, t)
+				if p == nil {
+					return
+				}
+				variants("packv", base, r, p, func() []byte { return gen.Encode(func(o *gio.DataOutputX) { pack.WritePack(o, p) }) },
+					func(b []byte) item {
+						return item{Kind: "pack", Sub: fmt.Sprint(t), Tags: []tagpos{{Pos: 0, W: 2, Kind: "pack"}}}
+					})
+			})
 		}
 	}
 	// containers put together by construction, so that the tags of the nested packs are known:
@@ -695,6 +842,69 @@ func generate(c *core.Ctx) []item {
 				}
 			}
 			cas++
+		}
+	}
+	for di := range gen.DirectTypes {
+		for bi := 0; bi < nBase && c.WantGen("directv"); bi++ {
+			base := di*1000 + bi*100
+			r := c.Rng("directv", base)
+			di := di
+			core.Guard(func() {
+				p := gen.Direct(r, di)
+				variants("directv", base, r, p, func() []byte {
+					return gen.Encode(func(o *gio.DataOutputX) {
+						reflect.ValueOf(p).MethodByName("Write").Call([]reflect.Value{reflect.ValueOf(o)})
+					})
+				}, func(b []byte) item { return item{Kind: "direct", Sub: gen.DirectTypes[di].Name} })
+			})
+		}
+	}
+	// UDP packs: the layout is selected by the protocol version the datagram header announces.  One fill per type,
+	// written under every version at and next to a threshold of the five agent families; one item per distinct
+	// length; and the single-field variants of the fill under the newest version of each family.
+	for ti, t := range gen.UdpTypes {
+		for bi := 0; bi < nBase && c.WantGen("udpv"); bi++ {
+			base := ti*1000 + bi*100
+			t := t
+			seen := map[int]bool{}
+			k := 0
+			for _, ver := range gen.UdpVersionsAll {
+				var b []byte
+				ver := ver
+				core.Guard(func() {
+					p := gen.Udp(c.Rng("udpv", base), t, ver)
+					if p != nil {
+						b = gen.Encode(func(o *gio.DataOutputX) { p.Write(o) })
+					}
+				})
+				if b == nil || seen[len(b)] || k >= c.Pick(6, 31) {
+					continue
+				}
+				seen[len(b)] = true
+				k++
+				if c.Want("udpv", base+k) {
+					add("udpv", base+k, item{Kind: "udp", Sub: fmt.Sprint(t), T: int(t), Ver: ver, Var: fmt.Sprint("version=", ver)}, b)
+				}
+			}
+			{
+				fi := (ti + bi) % 5
+				ver := []int32{10111, 20105, 30104, 40101, 50102}[fi]
+				vb := base + 50
+				core.Guard(func() {
+					r := c.Rng("udpv", vb)
+					p := gen.Udp(r, t, ver)
+					if p == nil {
+						return
+					}
+					saveMax := maxVar
+					maxVar = c.Pick(4, 10)
+					variants("udpv", vb, r, p, func() []byte {
+						p.SetVersion(ver)
+						return gen.Encode(func(o *gio.DataOutputX) { p.Write(o) })
+					}, func(b []byte) item { return item{Kind: "udp", Sub: fmt.Sprint(t), T: int(t), Ver: ver} })
+					maxVar = saveMax
+				})
+			}
 		}
 	}
 	cas = 0
@@ -1245,7 +1455,7 @@ func Run(c *core.Ctx) error {
 		child(c.Args["work"], from, c.Args["hostile"] != "0", c.Thorough())
 		os.Exit(0)
 	}
-	c.Rule = "valid encodings of values (20 type codes), steps (10 types), transaction/service records, packs (24 factory types, plain and with the lazily decoded second stage filled: tables, record blobs plain and compressed, profiles), containers put together by construction (composite, zip, log-sink zip), 20 packs/records decoded through their own Read, UDP packs and primitive streams read from a buffer and from a connection, built through golib's constructors with random field values; for each: the full decode, EVERY strict prefix (connection: every point and way the peer ends the stream), hostile overwrites (28 length/count/tag patterns at every offset < 400), every code at every position holding a type tag by construction, and on every returned object each public accessor twice + write + re-decode + accessor, in a child process under an address-space limit; non-trivial = encoding of >= 2 bytes; distinct by (kind, type, bytes)"
+	c.Rule = "valid encodings of values (20 type codes), steps (10 types), transaction/service records, packs (24 factory types, plain and with the lazily decoded second stage filled: tables, record blobs plain and compressed, profiles), containers put together by construction (composite, zip, log-sink zip), 29 packs/records/steps decoded through their own Read, steps and sub-records no factory reaches (SqlStep_3, cpu/memory/process sub-records), UDP packs and primitive streams read from a buffer and from a connection, built through golib's constructors with random field values, PLUS the layout variants of one populated object per type (one field at a time set to all 256 values of a byte-wide field, both of a bool, 0/1/2/3/-1 of a wider integer, empty/non-empty of texts, slices, maps, nested values; UDP packs under every protocol version at and next to a threshold; one encoding kept per distinct layout the writer produces); for each: the full decode, EVERY strict prefix (connection: every point and way the peer ends the stream), hostile overwrites (28 length/count/tag patterns at every offset < 400), every code at every position holding a type tag by construction, and on every returned object each public accessor twice + write + re-decode + accessor, in a child process under an address-space limit; non-trivial = encoding of >= 2 bytes; distinct by (kind, type, bytes)"
 	items := generate(c)
 	work := c.OutDir + "/work.json"
 	wb, _ := json.Marshal(items)
@@ -1334,7 +1544,7 @@ func Run(c *core.Ctx) error {
 	for i := range items {
 		it := &items[i]
 		n := len(it.Hex) / 2
-		t.Reset(it.Gen, it.Case, core.Ev{"kind": it.Kind, "sub": it.Sub})
+		t.Reset(it.Gen, it.Case, core.Ev{"kind": it.Kind, "sub": it.Sub, "var": it.Var})
 		c.Count(it.Kind+it.Sub+it.Hex, n >= 2)
 		byGen[it.Gen]++
 		if msg, bad := fatal[i]; bad {
@@ -1353,13 +1563,13 @@ func Run(c *core.Ctx) error {
 		if it.Kind == "net" {
 			via = "conn/eof/0"
 		}
-		t.Emit(core.Ev{"ev": "Obj", "via": via, "len": n, "full": r.Full, "consumed": r.Consumed, "okcuts": r.OkCuts, "overrun": r.Overrun})
+		t.Emit(core.Ev{"ev": "Obj", "via": via, "len": n, "full": r.Full, "consumed": r.Consumed, "okcuts": r.OkCuts, "overrun": r.Overrun, "whole": !it.Framed})
 		for _, nr := range r.Net {
 			if nr.Mode == "eof" && nr.Chunk == 0 {
 				continue // the history's first Obj event
 			}
 			t.Emit(core.Ev{"ev": "Obj", "via": fmt.Sprintf("conn/%s/%d", nr.Mode, nr.Chunk), "len": n, "full": nr.Full, "consumed": nr.Consumed,
-				"okcuts": nr.OkCuts, "overrun": nr.Overrun})
+				"okcuts": nr.OkCuts, "overrun": nr.Overrun, "whole": !it.Framed})
 		}
 		for _, h := range r.Hostile {
 			t.Emit(core.Ev{"ev": "Hostile", "len": h.MaxLen, "patch": h.Patch, "n": h.N, "outcomes": h.Outcomes,
